@@ -1,5 +1,5 @@
 /*VERIF
-{ "tu": "src/queue.c", "enforce": "_dispatch_lane_drain", "props": ["C02","C03","C04","C06","C01","C18"], "plain": true, "timeout": 400,
+{ "tu": "src/queue.c", "enforce": "_dispatch_lane_drain", "props": ["C02","C03","C04","C06","C01","C18","C10"], "plain": true, "timeout": 400,
   "bounded": {"unwind": 5, "what": "drains of <= 3 queued items (the drain loop is entered by a goto into its body: not a natural loop, so no loop contract can be attached)"},
   "assumes": ["scenario semantics: dq_state, the target queue and the item list change only through this drain's own call-outs (an item may suspend or retarget the queue); pinned by a rely clause / ghost state that the stubs update"],
   "stub_note": "_dispatch_queue_max_qos (asserts it is not applied to the WLH_ANON marker), item list access (get_head/pop_head), _dispatch_continuation_pop_inline (= an item starts running), width helpers (own contracts in C04), redirect/wake of readers: stubs recording order and checking the run conditions" }
@@ -11,7 +11,7 @@ extern const volatile void *H_state_p; extern unsigned long long H_state_now;
 #include "contracts/common/dq_common.h"
 const volatile void *H_state_p; unsigned long long H_state_now;
 struct dispatch_continuation_s H_items[3]; unsigned H_nitems, H_pos; struct dispatch_lane_s H_tq0, H_tq1;
-unsigned H_runs, H_redirects, H_reader_wakes; _Bool H_bad_run, H_bad_pop, H_serial; uint64_t H_owned_now_barrier; _Bool H_upgraded, H_have_reader_width;
+unsigned H_runs, H_redirects, H_reader_wakes; _Bool H_bad_run, H_bad_pop, H_serial; uint64_t H_owned_now_barrier; _Bool H_upgraded, H_have_reader_width, H_last_was_barrier;
 struct dispatch_invoke_context_s H_dic;
 static inline void _dispatch_thread_frame_push(dispatch_thread_frame_t dtf, dispatch_queue_class_t dqu) { (void)dtf; (void)dqu; }
 static inline void _dispatch_thread_frame_pop(dispatch_thread_frame_t dtf) { (void)dtf; }
@@ -26,8 +26,8 @@ static inline dispatch_qos_t _dispatch_queue_max_qos(dispatch_queue_class_t dq) 
 static inline bool _dispatch_queue_try_upgrade_full_width(dispatch_lane_t dq, uint64_t owned) { (void)dq; (void)owned; H_upgraded = ND_BOOL(); return H_upgraded; }
 static inline void _dispatch_queue_reserve_sync_width(dispatch_lane_t dq) { (void)dq; H_have_reader_width = 1; }
 static inline bool _dispatch_queue_try_acquire_async(dispatch_lane_t dq) { (void)dq; H_have_reader_width = ND_BOOL(); return H_have_reader_width; }
-static void _dispatch_non_barrier_waiter_redirect_or_wake(dispatch_lane_t dq, dispatch_object_t dou) { (void)dq; (void)dou; H_reader_wakes++; if (S_SUSPENDED(H_state_now) || dq->do_targetq != (dispatch_queue_t)&H_tq0) H_bad_run = 1; }
-static void _dispatch_continuation_redirect_push(dispatch_lane_t dl, dispatch_object_t dou, dispatch_qos_t qos) { (void)dl; (void)dou; (void)qos; H_redirects++; if (S_SUSPENDED(H_state_now) || dl->do_targetq != (dispatch_queue_t)&H_tq0) H_bad_run = 1; }
+static void _dispatch_non_barrier_waiter_redirect_or_wake(dispatch_lane_t dq, dispatch_object_t dou) { (void)dq; (void)dou; H_reader_wakes++; H_last_was_barrier = 0; if (S_SUSPENDED(H_state_now) || dq->do_targetq != (dispatch_queue_t)&H_tq0) H_bad_run = 1; }
+static void _dispatch_continuation_redirect_push(dispatch_lane_t dl, dispatch_object_t dou, dispatch_qos_t qos) { (void)dl; (void)dou; (void)qos; H_redirects++; H_last_was_barrier = 0; if (S_SUSPENDED(H_state_now) || dl->do_targetq != (dispatch_queue_t)&H_tq0) H_bad_run = 1; }
 /* AN ITEM STARTS RUNNING on this queue, in this drain */
 static inline void _dispatch_continuation_pop_inline(dispatch_object_t dou, dispatch_invoke_context_t dic, dispatch_invoke_flags_t flags, dispatch_queue_class_t dqu)
 {
@@ -43,6 +43,9 @@ static inline void _dispatch_continuation_pop_inline(dispatch_object_t dou, disp
 	/* the item itself may suspend or retarget the queue */
 	if (ND_BOOL()) H_state_now += DISPATCH_QUEUE_SUSPEND_INTERVAL;
 	if (ND_BOOL()) dqu._dl->do_targetq = (dispatch_queue_t)&H_tq1;
+	/* a barrier item of a concurrent queue may change the queue's width (dispatch_queue_set_width runs as one) */
+	H_last_was_barrier = H_serial || (it->dc_flags & DC_FLAG_BARRIER) != 0;
+	if (!H_serial && (it->dc_flags & DC_FLAG_BARRIER) && ND_BOOL()) { uint16_t w = ND(uint16_t); __CPROVER_assume(w >= 2 && w <= DISPATCH_QUEUE_WIDTH_POOL); *(uint16_t *)&dqu._dl->dq_width = w; }
 }
 VERIF_CONTRACT(dispatch_queue_wakeup_target_t, _dispatch_lane_drain, (dispatch_lane_t dq, dispatch_invoke_context_t dic, dispatch_invoke_flags_t flags, uint64_t *owned_ptr, bool serial_drain),
   REQ(dq == H_DQ && dic == &H_dic && serial_drain == H_serial && H_runs == 0 && !H_bad_run && !H_bad_pop && H_pos == 0 && H_nitems >= 1 && H_nitems <= 3)
@@ -54,6 +57,10 @@ VERIF_CONTRACT(dispatch_queue_wakeup_target_t, _dispatch_lane_drain, (dispatch_l
   /* a sync waiter at the head of a serial queue (or a barrier waiter) stops the drain and is returned for the lock hand-off */
   ENS(head_sync_waiter_stops_the_drain_for_handoff, VIMPL(H_dic.dic_barrier_waiter != 0,
         H_dic.dic_barrier_waiter == (void *)&H_items[H_pos] && (H_items[H_pos].dc_flags & DC_FLAG_SYNC_WAITER) && __CPROVER_return_value == dq->do_targetq))
+  /* C04 / C10: a drainer that ends as the barrier owner gives back the barrier plus the queue's CURRENT width (the width may have been changed by a barrier item it
+   * ran): giving back a stale width leaves the width accounting of the queue wrong for every later reader and dispatch_apply */
+  ENS(a_drain_ending_in_barrier_mode_owns_the_barrier_plus_the_current_width, VIMPL(__CPROVER_return_value == DISPATCH_QUEUE_WAKEUP_NONE && H_runs >= 1 && H_last_was_barrier && !H_serial && H_pos == H_nitems,
+        (*owned_ptr & ~(uint64_t)(DISPATCH_QUEUE_ENQUEUED | DISPATCH_QUEUE_ENQUEUED_ON_MGR)) == DISPATCH_QUEUE_IN_BARRIER + (uint64_t)H_lane.dq_width * DISPATCH_QUEUE_WIDTH_INTERVAL))
   /* stopping early with items left re-drives the queue on its (current) target: never NULL with work pending */
   ENS(leftover_items_are_redriven, VIMPL(H_pos < H_nitems, __CPROVER_return_value != DISPATCH_QUEUE_WAKEUP_NONE))
 )
@@ -65,7 +72,7 @@ void harness(void)
 	H_nitems = ND(unsigned); __CPROVER_assume(H_nitems >= 1 && H_nitems <= 3);
 	for (unsigned i = 0; i < 3; i++) { H_items[i].dc_flags = ND(uintptr_t) & 0xfff; }
 	H_lane.dq_items_tail = (void *)&H_items[H_nitems - 1]; H_lane.do_targetq = (dispatch_queue_t)&H_tq0;
-	H_pos = 0; H_runs = H_redirects = H_reader_wakes = 0; H_bad_run = H_bad_pop = 0; H_dic.dic_barrier_waiter = 0;
+	H_pos = 0; H_runs = H_redirects = H_reader_wakes = 0; H_bad_run = H_bad_pop = 0; H_last_was_barrier = 0; H_dic.dic_barrier_waiter = 0;
 	dispatch_invoke_flags_t flags = ND(dispatch_invoke_flags_t);
 	__CPROVER_assume(!(flags & (DISPATCH_INVOKE_THREAD_BOUND | DISPATCH_INVOKE_DISALLOW_SYNC_WAITERS)));
 	/* the queue may be an inner queue of a work loop (WORKLOOP_DRAIN): on this platform (no kevent workloops) the draining thread is not bound to
